@@ -1,29 +1,22 @@
 (* C16: formatting a schema never changes what it means.
    front/Fmt.v is an executable port of format.go over the same tokenizer model as the parser; lib/front.py (check_fmt)
-   compares its output with bebop.Format's on every generated input.  The full statement (C16_statement, in
-   front/FmtFacts.v: every accepted text is formatted without error into a text that is accepted and denotes the same
-   schema up to doc comments) is FALSE of the faithful model, as it is of the code: the theorem below refutes it with the
-   four committed known findings as witnesses, each by computation.  Replayed on the implementation by the check, the same
-   four texts are the KNOWN-FINDING lines. *)
+   compares its output with bebop.Format's on every generated input and evaluates the property directly: that is what
+   decides it.  The full statement on the model is C16_statement (front/FmtFacts.v): every accepted text is formatted
+   without error into a text that is accepted and denotes the same schema up to doc comments and the tags written in them.
+   Until the formatter was repaired that statement was FALSE of the code and of the model, and this file proved its
+   refutation from four witness texts (typed enum header, T[][], import lines, [flags]).  With the repairs mirrored in the
+   model the witnesses meet the statement; no general proof of it exists (it needs the inversion of the tokenizer on the
+   formatter's output).  Proved: *)
 Require Import Bebop.front.Tok Bebop.front.Parse Bebop.front.Fmt Bebop.front.FmtFacts Bebop.front.FmtSafe.
 
-Definition C16_refuted_statement : Prop :=
-  ~ C16_statement /\
-  (* the witnesses, one per known finding *)
-  output_rejected w_typed_enum /\       (* enum E : uint8 { A = 1; }       -> output no longer parses *)
-  output_rejected w_array2 /\           (* struct A { int32[][] grid; }    -> output no longer parses *)
-  output_differs w_import /\            (* import "a.bop" ...              -> the import is gone *)
-  output_differs w_flags.               (* [flags] enum F { ... }          -> the enum is gone *)
+Definition C16_partial_statement : Prop :=
+  (* for EVERY input text, accepted or not: Format does not panic *)
+  (forall input, format input <> PPanic) /\
+  (* the four texts that used to be mangled are formatted into accepted texts denoting the same schema *)
+  holds16 w_typed_enum /\ holds16 w_array2 /\ holds16 w_import /\ holds16 w_flags.
 
-Theorem C16_refuted : C16_refuted_statement.
-Proof.
-  split; [exact (rejected_refutes _ typed_enum_rejected)|].
-  split; [exact typed_enum_rejected|]. split; [exact array2_rejected|]. split; [exact import_dropped|exact flags_differs].
-Qed.
-Print Assumptions C16_refuted.
-
-(* what does hold of it for EVERY input text, accepted or not: Format does not panic *)
-Definition C16_partial_statement : Prop := forall input, format input <> PPanic.
 Theorem C16_partial : C16_partial_statement.
-Proof. exact format_never_panics. Qed.
+Proof.
+  split; [exact format_never_panics|]. split; [exact typed_enum_16|]. split; [exact array2_16|]. split; [exact import_16|exact flags_16].
+Qed.
 Print Assumptions C16_partial.
